@@ -76,7 +76,12 @@ func suiteProxy(r *rng, n int) {
 		cr := r.fork(uint64(i))
 		lc := config.LocationConfig{Name: "l1", Upstream: "u1"}
 		var rewrites, reqH, respH, qs []string
-		switch cr.intn(4) {
+		switch cr.intn(6) {
+		case 4:
+			// the documented two-wildcard form
+			rewrites = []string{"/rest/*/user/*:/$1/$2"}
+		case 5:
+			rewrites = []string{cr.pick([]string{"/rest/*/user/*:/u/$2/of/$1", "/*/user/*:/$2-$1", "/rest/*/x*/*:/$3/$2/$1"}), "/api/*:/v2/$1"}
 		case 0:
 			rewrites = []string{"/api/*:/$1"}
 		case 1:
@@ -127,7 +132,8 @@ func suiteProxy(r *rng, n int) {
 			lq = l.Query.Encode()
 		}
 		emit("proxy", "case", itoa(int64(i)), encList(rewrites), encList(reqH), encList(respH), hx(lq), hx(upAE), b2s(cc))
-		path := cr.pick([]string{"/api/users/1", "/old", "/plain/x", "/api/a b", "/api/"})
+		path := cr.pick([]string{"/api/users/1", "/old", "/plain/x", "/api/a b", "/api/", "/rest/v1/user/42", "/rest/a/user/b/user/c",
+			"/rest//user/", "/rest/v1/xy/z", "/rest/v 1/user/4 2", "/api/rest/q/user/7"})
 		rawQ := cr.pick([]string{"", "", "b=2&a=1", "flag", "q=a%20b&q=c", "z=&y", "x=1&x=2&k=old"})
 		for reqNo := 0; reqNo < 2; reqNo++ {
 			method := "GET"
